@@ -278,3 +278,57 @@ let xcg_main () =
                  | XCodegenExpr.ADD -> "ADD" | XCodegenExpr.SUB -> "SUB") code)))
     end
   done with End_of_file -> ()
+
+(* ---------------------------------------------------------------- xsemtrace: the spec run with its call sequence
+   hvmain xsemtrace <prog.sx> [steps depth]     stdin: one line per input = hex bytes ("-" = empty)
+   one line per input:   calls main,f0,f1,f0 | behaviour exit=.. consumed=.. out=..      (or  | undef Reason ...)
+   The names are the procedures/functions whose bodies XSem starts executing, in order (main first; system calls
+   are not calls).  How: the extracted open-recursion bodies XSem.eval_body / evals_body / exec_body / execs_body
+   are tied into a recursion here exactly as XSem's Fixpoint does (without the fuel argument: the statement budget
+   and the depth bound still apply), and every procedure body is wrapped in a one-element sequence so that the
+   moment XSem.invoke hands a body to the statement executor is recognisable by physical identity.  The wrapping
+   costs one budget unit per call and is otherwise neutral; the behaviour printed is that of the wrapped program. *)
+let xsemtrace_main () =
+  let prog = program_of (parse_sx (read_file Sys.argv.(2))) in
+  let steps, depth =
+    if Array.length Sys.argv >= 5 then zi (int_of_string Sys.argv.(3)), nat_of_int (int_of_string Sys.argv.(4))
+    else XSem.default_steps, XSem.default_depth in
+  let wrapped = SL.map (fun p -> { p with XAst.body = XAst.SSeq [p.XAst.body] }) prog.XAst.procs in
+  let prog = { prog with XAst.procs = wrapped } in
+  let trace = ref [] in
+  let rec ev ge e s = XSem.eval_body (ev ge) (evs ge) (ex ge) ge e s
+  and evs ge es s = XSem.evals_body (ev ge) (evs ge) es s
+  and ex ge st s =
+    (match SL.find_opt (fun p -> p.XAst.body == st) wrapped with
+     | Some p -> trace := ocaml_string p.XAst.pname :: !trace
+     | None -> ());
+    XSem.exec_body (ev ge) (evs ge) (ex ge) (exs ge) ge st s
+  and exs ge ss s = XSem.execs_body (ex ge) (exs ge) ss s in
+  each_input_line (fun inp ->
+    trace := [];
+    let outcome =
+      match XSem.wf_program prog with
+      | Some msg -> XSem.Undef (XSem.Unsupported msg)
+      | None ->
+        (match XSem.init_globals prog.XAst.globals [] [] [] with
+         | Datatypes.Coq_inl u -> XSem.Undef u
+         | Datatypes.Coq_inr ((vals, vars), arrs) ->
+           (match XSem.find_proc (coq_string "main") prog.XAst.procs with
+            | None -> XSem.Undef (XSem.Unsupported (coq_string "no procedure main"))
+            | Some m ->
+              if m.XAst.is_func || m.XAst.formals <> [] then XSem.Undef (XSem.Unsupported (coq_string "main must be a procedure without formals"))
+              else begin
+                let ge = { XSem.g_vals = vals; g_procs = prog.XAst.procs; g_maxdepth = depth } in
+                let s0 = { XSem.gvars = vars; garrs = arrs; out_rev = []; input = SL.map zi inp; ncons = Datatypes.O; budget = steps;
+                           cur = XSem.eff0; stk = [{ XSem.f_vars = []; f_vals = []; f_depth = Datatypes.O }] } in
+                match XSem.invoke (ex ge) ge false (coq_string "main") [] s0 with
+                | XSem.Ret (_, s) -> XSem.finish s (zi 0)
+                | XSem.Halt (c, s) -> XSem.finish s c
+                | XSem.Fail u -> XSem.Undef u
+              end)) in
+    P.printf "calls %s | " (SS.concat "," (SL.rev !trace));
+    match outcome with
+    | XSem.Behaviour b ->
+        P.printf "behaviour exit=%d consumed=%d out=%s\n" (u32 (iz b.XSem.exit_value)) (int_of_nat b.XSem.consumed)
+          (out_str (SL.map (fun (st, by) -> (iz st, iz by)) b.XSem.outputs))
+    | XSem.Undef u -> P.printf "undef %s\n" (undef_str u))
